@@ -1642,8 +1642,15 @@ fn evaluate_cases(
                                 }
                                 m
                             };
+                            // (an occurrence reached through another inlined nonterminal sits in that
+                            // one's wrapper, so even two actions of one nonterminal can swap when the
+                            // derivation inlines several different nonterminals into one host: the
+                            // per-nonterminal order is only reported as a statistic)
                             let same_nt_order_kept = per_nt(log) == per_nt(&mb_model.log);
-                            let sig = if x == y && same_nt_order_kept && mb_model.distinct_inlined_hosts > 0 {
+                            if count && x == y && !same_nt_order_kept && mb_model.distinct_inlined_hosts > 0 {
+                                ck.class("c14_f10_cases_where_same_nonterminal_actions_swap(nested wrappers)");
+                            }
+                            let sig = if x == y && mb_model.distinct_inlined_hosts > 0 {
                                 "C14/order/distinct-inlined-nonterminals".to_string()
                             } else {
                                 format!("C14/inlined-action-order/{cfgn}")
